@@ -1,6 +1,8 @@
 package vc
 
 import (
+	"os"
+	"math/big"
 	"strings"
 	"fmt"
 	"go/token"
@@ -278,12 +280,22 @@ func (e *Exec) startCut(st *State, fr *Frame, h, prev *ssa.BasicBlock) {
 	deltas := map[int]*Term{}
 	nonConstDelta := map[int]bool{}
 	measures := e.synthMeasures(fr, h, phis, body)
+	preNames := map[string]bool{}
+	for n := range e.C.Decls {
+		preNames[n] = true
+	}
 	for round := 0; round < 8; round++ {
 		changed := false
 		s2 := st.clone()
 		s2.Record = &WriteRec{Objs: map[int]bool{}}
 		f2 := fr.clone()
 		head := e.havocLoopState(s2, f2, h, phis, entry, writes, repoint, desc)
+		headRoots := map[int]Val{}
+		for id := range writes {
+			if r, ok := s2.Heap[id]; ok {
+				headRoots[id] = r
+			}
+		}
 		for _, u := range user {
 			if u.Kind == "invariant" {
 				s2.assume(e.evalLoopClause(s2, f2, u, phis, head))
@@ -301,6 +313,7 @@ func (e *Exec) startCut(st *State, fr *Frame, h, prev *ssa.BasicBlock) {
 				s2.assume(g)
 			}
 		}
+		var newFill []*cand
 		cut := &CutInfo{Header: h, Dry: true, Phis: phis, HeadVals: head}
 		cut.OnBack = func(bs *State, bf *Frame, bprev *ssa.BasicBlock, back []Val) {
 			for k := range phis {
@@ -338,6 +351,8 @@ func (e *Exec) startCut(st *State, fr *Frame, h, prev *ssa.BasicBlock) {
 				}
 				deltas[k] = d
 			}
+			// proposed now, assumed at the loop head from the next round on (this pass did not assume them)
+			newFill = append(newFill, e.fillCandidates(st, bs, phis, entry, head, headRoots, writes, deltas, nonConstDelta, preNames, cellCand)...)
 			arr := &arrival{st: bs}
 			for _, cd := range cands {
 				if !cd.alive {
@@ -387,6 +402,10 @@ func (e *Exec) startCut(st *State, fr *Frame, h, prev *ssa.BasicBlock) {
 					}
 				}
 			}
+		}
+		if len(newFill) > 0 {
+			cands = append(cands, newFill...)
+			changed = true
 		}
 		for id := range s2.Record.Objs {
 			_, inHeap := st.Heap[id]
@@ -933,6 +952,9 @@ func (e *Exec) quickValidMany(st *State, goals []*Term) []bool {
 				// which invariants are found does not depend on the load
 				r = e.W.PF.Quick(scripts[i], 10.0)
 			}
+			if os.Getenv("GOVC_DEBUG") != "" && strings.Contains(scripts[i], "forall") {
+				os.WriteFile(fmt.Sprintf("/tmp/fillq_%d_%s.smt2", i, r.Status), []byte(scripts[i]), 0o644)
+			}
 			res[i] = r.Status == "unsat"
 		}()
 	}
@@ -1011,4 +1033,220 @@ func (e *Exec) usableClauses(st *State, fr *Frame, user []*LoopClause, phis []*s
 		}
 	}
 	return out
+}
+
+// fillCandidates proposes "array fill" invariants from what one symbolic pass over the loop body stored into scalar
+// arrays: when the body stores val(i) at index idx(i) of an array that existed before the loop, with i an induction
+// variable of constant stride and idx, val mentioning nothing else that changes in the loop, the candidate is
+//     forall k between the entry value of i and its current value (on the stride): array[idx(k)] == val(k).
+// Like every candidate it is kept only if it holds on entry and is preserved by the body (Houdini), so a wrong guess
+// costs a solver query, not soundness. It makes loops that fill a preallocated buffer or decode into a slice provable
+// without a hand-written invariant naming the loop's locals.
+func (e *Exec) fillCandidates(st0, bs *State, phis []*ssa.Phi, entry, head []Val, headRoots map[int]Val, writes map[int]map[string][]PathElem,
+	deltas map[int]*Term, nonConst map[int]bool, preNames map[string]bool, seen map[string]bool) []*cand {
+	c := e.C
+	var out []*cand
+	ids := make([]int, 0, len(writes))
+	for id := range writes {
+		ids = append(ids, id)
+	}
+	sort.Ints(ids)
+	for _, id := range ids {
+		hr, ok := headRoots[id]
+		if !ok {
+			continue
+		}
+		br, ok := bs.Heap[id]
+		if !ok {
+			continue
+		}
+		var keys []string
+		for k := range writes[id] {
+			keys = append(keys, k)
+		}
+		sort.Strings(keys)
+		for _, pk := range keys {
+			pth := writes[id][pk]
+			ha, ok1 := e.navigateQuiet(hr, pth).(*ArrayVal)
+			ba, ok2 := e.navigateQuiet(br, pth).(*ArrayVal)
+			if !ok1 || !ok2 || !ha.Scalar || !ba.Scalar {
+				continue
+			}
+			// the stores of this pass, newest first
+			type store struct{ idx, val *Term }
+			var stores []store
+			cur := ba.C
+			okShape := false
+			for n := 0; n < 16; n++ {
+				if cur == ha.C {
+					okShape = true
+					break
+				}
+				as, isStore := cur.(*ArrStore)
+				if !isStore {
+					break
+				}
+				stores = append(stores, store{as.Idx, as.Val})
+				cur = as.Base
+			}
+			debugf("fill: obj%d%s shape=%v stores=%d backC=%T headC=%T", id, pk, okShape, len(stores), ba.C, ha.C)
+			if !okShape || len(stores) == 0 {
+				continue
+			}
+			for _, sr := range stores {
+				// the induction variable the index depends on
+				k := -1
+				for j := range phis {
+					hv, isT := head[j].(*Term)
+					if !isT || hv.Op != "var" || !isIntType(phis[j].Type()) {
+						continue
+					}
+					if termMentions(sr.idx, hv.Name) {
+						if k >= 0 {
+							k = -2
+							break
+						}
+						k = j
+					}
+				}
+				debugf("fill: store idx=%s k=%d", c.Show(sr.idx), k)
+				if k < 0 || nonConst[k] {
+					continue
+				}
+				d, have := deltas[k]
+				if !have || isZero(d) {
+					debugf("fill: no constant stride yet for phi %d", k)
+					continue
+				}
+				hv := head[k].(*Term)
+				e0, isT := entry[k].(*Term)
+				if !isT {
+					continue
+				}
+				// nothing else created during this pass may occur in index or value
+				if !termOnly(sr.idx, preNames, hv.Name) || !termOnly(sr.val, preNames, hv.Name) {
+					debugf("fill: rejected, mentions loop-local symbols: %s", c.Show(sr.val))
+					continue
+				}
+				ph := c.Var("fill.k", hv.S)
+				idxP := c.Subst(sr.idx, map[*Term]*Term{hv: ph})
+				valP := c.Subst(sr.val, map[*Term]*Term{hv: ph})
+				key := fmt.Sprintf("fill:%d%s:%d:%d:%d", id, pk, idxP.ID(), valP.ID(), k)
+				if seen[key] {
+					continue
+				}
+				seen[key] = true
+				signed := isSigned(phis[k].Type())
+				step := d.SInt()
+				id, pth, k := id, pth, k
+				name := fmt.Sprintf("obj%d%s", id, pk)
+				if m := e.meta(id); m != nil && m.Name != "" {
+					name = m.Name + pk
+				}
+				cd := &cand{desc: fmt.Sprintf("%s filled: [%s] == %s for every past %s", name, c.Show(idxP), c.Show(valP), phiName(phis[k])), alive: true,
+					eval: func(s *State, v []Val) *Term {
+						root, ok := s.Heap[id]
+						if !ok {
+							return c.False()
+						}
+						av, ok := e.navigateQuiet(root, pth).(*ArrayVal)
+						iv, ok2 := v[k].(*Term)
+						if !ok || !ok2 || !av.Scalar {
+							return c.False()
+						}
+						kv := c.Var(c.FreshName("fk"), iv.S)
+						var rng *Term
+						abs := new(big.Int).Abs(step)
+						var dist *Term
+						if step.Sign() > 0 {
+							rng = c.And(c.Le(e0, kv, signed), c.Lt(kv, iv, signed))
+							dist = c.Sub(kv, e0)
+						} else {
+							rng = c.And(c.Lt(iv, kv, signed), c.Le(kv, e0, signed))
+							dist = c.Sub(e0, kv)
+						}
+						if abs.Cmp(big.NewInt(1)) != 0 {
+							if iv.S.IsBV() {
+								rng = c.And(rng, c.Eq(c.URem(dist, c.BVConst(abs, iv.S.W)), c.BVConst(big.NewInt(0), iv.S.W)))
+							} else {
+								rng = c.And(rng, c.Eq(c.IMod(dist, c.IntConst(abs)), c.Inti(0)))
+							}
+						}
+						if rng.IsFalse() {
+							return c.True()
+						}
+						m := map[*Term]*Term{ph: kv}
+						body := c.Eq(e.sel(av.C, c.Subst(idxP, m)), c.Subst(valP, m))
+						return c.Forall([]*Term{kv}, c.Implies(rng, body))
+					}}
+				// must hold on entry (empty range)
+				if g := cd.eval(st0, entry); !g.IsTrue() && (g.IsFalse() || !e.quickValid(st0, g)) {
+					debugf("fill: candidate does not hold on entry: %s", cd.desc)
+					continue
+				}
+				debugf("fill: candidate %s", cd.desc)
+				out = append(out, cd)
+			}
+		}
+	}
+	return out
+}
+
+// navigateQuiet walks a value along a field path without touching any state (nil when the path does not fit).
+func (e *Exec) navigateQuiet(v Val, path []PathElem) Val {
+	for _, pe := range path {
+		switch x := v.(type) {
+		case *StructVal:
+			if pe.Idx != nil || pe.Field < 0 || pe.Field >= len(x.Fields) {
+				return nil
+			}
+			v = x.Fields[pe.Field]
+		default:
+			return nil
+		}
+	}
+	return v
+}
+
+func termMentions(t *Term, name string) bool {
+	seen := map[*Term]bool{}
+	var rec func(t *Term) bool
+	rec = func(t *Term) bool {
+		if seen[t] {
+			return false
+		}
+		seen[t] = true
+		if (t.Op == "var" || t.Op == "app") && t.Name == name {
+			return true
+		}
+		for _, a := range t.Args {
+			if rec(a) {
+				return true
+			}
+		}
+		return false
+	}
+	return rec(t)
+}
+
+// termOnly: every variable / function symbol of t existed before (pre) or is `also`.
+func termOnly(t *Term, pre map[string]bool, also string) bool {
+	seen := map[*Term]bool{}
+	var rec func(t *Term) bool
+	rec = func(t *Term) bool {
+		if seen[t] {
+			return true
+		}
+		seen[t] = true
+		if (t.Op == "var" || t.Op == "app") && t.Name != also && !pre[t.Name] {
+			return false
+		}
+		for _, a := range t.Args {
+			if !rec(a) {
+				return false
+			}
+		}
+		return true
+	}
+	return rec(t)
 }
